@@ -232,8 +232,31 @@ func (w *World) RunCell(n int, c Cell, r *rand.Rand) (Line, error) {
 		q.Set("error", pick(r, "access_denied", "<b>x</b>"))
 	}
 	w.FA.Script(script)
-	method := "GET"
-	resp := world.Do(w.P.Handler, world.NewReq(method, hostOwn, "/oauth2/callback?"+q.Encode(), nil, cookies, ""))
+	// request shape: a browser redirect is a GET, but the route accepts any method, and a form POST
+	// may carry the parameters in its body (with or without a copy in the query)
+	var resp *world.Resp
+	shape := []string{"get", "post_body", "post_both", "post_state_in_body"}[r.Intn(4)]
+	form := http.Header{"Content-Type": {"application/x-www-form-urlencoded"}}
+	switch shape {
+	case "get":
+		resp = world.Do(w.P.Handler, world.NewReq("GET", hostOwn, "/oauth2/callback?"+q.Encode(), nil, cookies, ""))
+	case "post_body":
+		resp = world.Do(w.P.Handler, world.NewReq("POST", hostOwn, "/oauth2/callback", form, cookies, q.Encode()))
+	case "post_both":
+		resp = world.Do(w.P.Handler, world.NewReq("POST", hostOwn, "/oauth2/callback?"+q.Encode(), form, cookies, q.Encode()))
+	default:
+		qq := url.Values{}
+		for k, v := range q {
+			if k != "state" {
+				qq[k] = v
+			}
+		}
+		bb := url.Values{}
+		if q.Get("state") != "" || c.Cell.St[0] == "empty" {
+			bb.Set("state", q.Get("state"))
+		}
+		resp = world.Do(w.P.Handler, world.NewReq("POST", hostOwn, "/oauth2/callback?"+qq.Encode(), form, cookies, bb.Encode()))
+	}
 	o := Out{Status: resp.Status, Loc: "none"}
 	if v, _ := resp.CookieAfter(w.P.CookieName, ""); v != "" {
 		o.Session = true
@@ -260,7 +283,7 @@ func (w *World) RunCell(n int, c Cell, r *rand.Rand) (Line, error) {
 		}
 	}
 	ln := Line{Ev: "cell", Case: n, St: c.Cell.St, Ck: c.Cell.Ck, Code: c.Cell.Code, Err: c.Cell.Err, Out: o, Hops: []string{},
-		Conc: map[string]interface{}{"query": q.Encode(), "cookies": cookies, "location": resp.Header.Get("Location"), "flowA": fa, "flowB": fb}}
+		Conc: map[string]interface{}{"shape": shape, "query": q.Encode(), "cookies": cookies, "location": resp.Header.Get("Location"), "flowA": fa, "flowB": fb}}
 	return ln, nil
 }
 
